@@ -84,8 +84,9 @@ def build_class(case: dict):
     base = {"TaskPool": TaskPool, "SimpleTaskPool": SimpleTaskPool}[case["base"]]
     table = dict(TASKPOOL if case["base"] == "TaskPool" else SIMPLE)
     private: List[str] = []
+    docs: Dict[str, str] = {}
     if "members" not in case:
-        return base, table, private
+        return base, table, private, docs
     s = case.get("suffix", "")
     src = ("from __future__ import annotations\n" if case.get("postponed") else "") + "class Mid(Base):\n    '''Intermediate.'''\n    pass\n\n"
     parent = "Mid" if case.get("depth", 1) == 2 else "Base"
@@ -97,11 +98,14 @@ def build_class(case: dict):
             continue      # a plain class attribute: no command, and no effect on the other commands
         if entry is not None:
             table[entry[0].format(s=s)] = entry[1]
+            m = re.search(r"\'\'\'(.+?)\'\'\'", tmpl)
+            if m and "setter" not in tmpl:
+                docs[entry[0].format(s=s)] = m.group(1)
         else:
             private.append(re.search(r"def (_\w+)", tmpl.format(s=s)).group(1))  # type: ignore[union-attr]
     ns: Dict[str, Any] = {"Base": base, "__name__": "vt_generated_pool_module"}
     exec(compile(src, "<generated pool subclass>", "exec"), ns)
-    return ns["GenPool"], table, private
+    return ns["GenPool"], table, private, docs
 
 
 def norm(text: str) -> str:
@@ -169,7 +173,7 @@ class C16Engine(Engine):
 
         async def main() -> None:
             from ..ctl import hmod
-            cls, table, private = build_class(case)
+            cls, table, private, docs = build_class(case)
             labels.append("class:generated" if "members" in case else "class:" + case["base"])
             kw: Dict[str, Any] = {}
             if case.get("name"):
@@ -219,6 +223,8 @@ class C16Engine(Engine):
                         for o in option_strings(pname, kind):
                             if o not in text:
                                 fail("help/parameter-not-described", f"{cmd} {h}: {o}")
+                    if name in docs and norm(docs[name]) not in text:
+                        fail("help/member-docstring-line-missing", f"{cmd} {h}: {docs[name]!r}")
             for p in private:
                 if p.replace("_", "-") in got or p in got:
                     fail("surface/non-public-member-exposed", p)
